@@ -89,6 +89,12 @@ func Check(rec *Record) []Finding {
 	if n := len(rec.Attempts); n > 0 {
 		last = rec.Attempts[n-1]
 	}
+	if o.Deadlock && rec.PreError == 1 {
+		add("C05", "blocked:Error-before-Stream", "Error() on a Streamer that has not streamed yet never returns: "+strings.Join(o.Blocked, "; "))
+	}
+	if rec.PreError == 2 && rec.PreErrorText != "" {
+		add("C06", "error-before-stream", "Error() on a Streamer that has not streamed yet reports a failure: "+rec.PreErrorText)
+	}
 	if o.Deadlock && last != nil {
 		where := "Stream"
 		key := "blocked:Stream"
